@@ -72,6 +72,17 @@ def c01(seed, tier):
                 st = struct("T", fields, cases)
                 scen.append(scenario("c01s%d" % sid, [st], aux=[aux] if placement == "named" else []))
                 sid += 1
+    # the same bound kind on the struct declaration and on a field, with different N (each is a rule of its own), several bound
+    # kinds on one field, and a named float type
+    i64, u8, f32 = basic("int64"), basic("uint8"), basic("float32")
+    auxc, cels = named("Celsius", f32)
+    lim = struct("Limits", [fld("Plain", [], basic("int")), fld("High", ["//govalid:gt=10"], i64), fld("Small", ["//govalid:lte=20"], u8),
+                            fld("Temp", ["//govalid:gt=36.5"], cels), fld("Band", ["//govalid:gt=7", "//govalid:lt=9", "//govalid:gte=8", "//govalid:lte=8"], i64)],
+                 [case([set_int("Plain", a), set_int("High", b), set_int("Small", c), set_f32("Temp", f32bits(d)), set_int("Band", e)])
+                  for a, b, c, d, e in [(6, 6, 21, 5.5, 8), (6, 7, 50, 20.0, 7), (50, 10, 100, 36.5, 9), (50, 11, 20, 37.0, 8), (5, 5, 5, 5.0, 6), (101, 101, 101, 101.0, 10),
+                                        (100, 100, 6, 36.6, 8), (6, 200, 19, 1e9, 8)]],
+                 gendoc=["//govalid:gt=5", "//govalid:lte=100"])
+    scen.append(scenario("c01both", [lim], aux=[auxc]))
     return {"scenarios": scen}
 
 
@@ -188,9 +199,14 @@ def c03(seed, tier):
     for unit in RUNE_UNITS[:4]:
         for n in (7, 8, 9, 15, 16, 17):
             strings.append(unit * n)
+    # an alias of string is a string: same counting (defined string types do not compile with these markers: undocumented)
+    a_text, text = alias("Text", basic("string"))
+    for marker in ("minlength", "maxlength", "length"):
+        for n in (0, 1, 2, 3):
+            fields.append(fld("%sA%d" % (marker.capitalize()[:3], n), ["//govalid:%s=%d" % (marker, n)], text))
     names = [f["names"][0] for f in fields]
     cases = [case([set_str(nm, s) for nm in names]) for s in strings]
-    return {"scenarios": [scenario("c03", [struct("T", fields, cases)])]}
+    return {"scenarios": [scenario("c03", [struct("T", fields, cases)], aux=[a_text])]}
 
 
 def c04(seed, tier):
